@@ -40,6 +40,14 @@ PROPS = {
         assumptions=COMMON_ASSUMPTIONS + ["crash model of the property statement: the process stops after an individual datastore write and writes are durable in order; lost or reordered un-synced writes are not modelled", "exhaustive over the write prefixes of each generated history, sampled over histories"],
         exhaustive=True,
     ),
+    "C12": dict(
+        harness="c12", pkg="ipld/merkledag", test="TestVerifC12", yield_pkgs=["ipld/merkledag"], level="exploration", crashguard=True,
+        quick=dict(runs=16 * 1500, budget=90), thorough=dict(runs=16 * 20000, budget=1500),
+        rule="one case = a DAG (<=12 quick / <=40 thorough nodes, shared subtrees, missing and failing blocks), an option set (SkipRoot, concurrency 0/1/2/3/8/32, depth limit -1..6 or plain set visit, an ordered list of <=3 handler options from IgnoreErrors/IgnoreMissing/OnMissing/OnError(pass|swallow|replace), WithProvider, GetLinksDirect vs GetLinksWithDAG) and a scheduling tape deciding which parked fetch completes next; distinct = distinct event-log fingerprint; non-trivial = at least one context switch or failing fetch",
+        real=["merkledag.Walk / WalkDepth, sequentialWalkDepth, parallelWalkDepth, all WalkOptions", "go-ipld-format GetLinks"],
+        stub=["node getter (simdag: every fetch parks, missing blocks, failing fetches)", "recording provider"],
+        assumptions=COMMON_ASSUMPTIONS + ["handler options compose in the order given: each handler receives the error left by the handlers added before it", "the FetchGraph-over-blockservice half of the statement is checked under C05's harness, not here"],
+    ),
     "C02": dict(
         harness="c02", pkg="blockstore", test="TestVerifC02", yield_pkgs=["blockstore"], level="exploration",
         quick=dict(runs=16 * 2500, budget=90), thorough=dict(runs=16 * 60000, budget=1500),
